@@ -16,5 +16,8 @@ func controlsC19() []Control {
 		{Name: "table update raises through the manual API", Expect: "R1", Mutate: replaceIn("(*playerRunner).UpdateTableState", "\t// Emit event\n", "\tif gamePlayerIdx == 0 {\n\t\tpr.Raise(1)\n\t}\n", 0)},
 		{Name: "check played without asking whether it is allowed", Expect: "R2", Mutate: replaceIn("(*playerRunner).automate", "} else if gs.HasAction(playerIdx, \"check\") {", "} else if playerIdx >= 0 {", 0)},
 		{Name: "pass requested after arming the timer", Expect: "R4", Mutate: replaceIn("(*playerRunner).requestMove", "if pr.status == PlayerStatus_Suspend {", "if pr.status != PlayerStatus_Running {", 0)},
+		{Name: "timer armed for the index of another id", Expect: "R7", Mutate: replaceIn("(*playerRunner).UpdateTableState", "pr.actor.GetTable().GetGamePlayerIndex(pr.playerID)", "pr.actor.GetTable().GetGamePlayerIndex(pr.curGameID)", 0)},
+		{Name: "timer armed although the player is not in the hand", Expect: "R7", Mutate: replaceIn("(*playerRunner).UpdateTableState", "if gamePlayerIdx == -1 {", "if gamePlayerIdx == -2 {", 0)},
+		{Name: "timer armed when nothing is asked", Expect: "R7", Mutate: replaceIn("(*playerRunner).UpdateTableState", "len(player.AllowedActions) > 0", "len(player.AllowedActions) >= 0", 0)},
 	}
 }
